@@ -228,7 +228,11 @@ Proof.
   rewrite N.ltb_irrefl, firstn_blen. reflexivity.
 Qed.
 
-(* D10: the variable-length datatype header as written now does not survive decode(encode x) *)
+(* the encoder of the tree under test (vlen_header_repaired = true) *)
+Lemma vlen_roundtrip x : wf_vlen x = true -> dec_datatype (enc_datatype x) = Ok (proj_vlen x).
+Proof. exact (vlen_repaired_roundtrip x). Qed.
+
+(* D10: the variable-length datatype header as written before 71914eb does not survive decode(encode x) *)
 Lemma vlen_refuted :
   exists x, dt_class x = DT_VLEN /\ encok_datatype x = true /\
             match dec_datatype (enc_datatype_gen false x) with
